@@ -99,7 +99,7 @@ Section MODEL.
     | Some sp => (s1, Ok sp)
     | None =>
         match sp_from_ws f validate i with
-        | Ok v => (reg s1 i v, Ok v)
+        | Ok v => (if validate then reg s1 i v else s1, Ok v)   (* only a validated state point is cached *)
         | Err e => (s1, Err e)
         end
     end.
@@ -134,9 +134,13 @@ Section MODEL.
   (* _StatePointDict.load(job_id): _load_from_resource (ENOENT -> None), hash validation.
      Returns the DECODED DATA (what load() returns and what gets registered). *)
   Definition sp_load (f : fs) (i : str) : result json :=
-    let validate (v : json) := if str_eqb (cid v) i then Ok v else Err EJobsCorrupted in
+    let validate (v : json) :=
+      match v with
+      | JNull => Err EJobsCorrupted                 (* "if data is None or calc_id(data) != job_id" *)
+      | _ => if str_eqb (cid v) i then Ok v else Err EJobsCorrupted
+      end in
     match get f (spf i) with
-    | None => validate JNull                      (* calc_id(None) is compared with the id ... *)
+    | None => validate JNull                      (* ENOENT -> data None *)
     | Some Dir => Err EOSError
     | Some (File c) =>
         match loads_b (c_bytes c) with
@@ -146,8 +150,8 @@ Section MODEL.
         end
     end.
 
-  (* ... followed by self._update(data): a mapping is taken over, None leaves the dict EMPTY,
-     anything else is rejected by the collection with a ValueError *)
+  (* ... followed by self._update(data): a mapping is taken over, anything else is rejected by the
+     collection with a ValueError (None would leave the dict empty, but load() no longer lets it through) *)
   Definition sp_view (v : json) : result json :=
     match v with JObj _ => Ok v | JNull => Ok (JObj []) | _ => Err EValueError end.
 
@@ -158,15 +162,28 @@ Section MODEL.
     | Ok d => match sp_view d with Ok v => Ok (d, v) | Err e => Err e end
     end.
 
+  (* Project._contains_job_id: an id-shaped name that exists in the workspace *)
+  Definition contains_id (f : fs) (i : str) : bool := id_match i && exists_ f (jdir i).
+
+  (* the id / prefix resolution of open_job(id=...) after a cache miss *)
+  Definition resolve_id (f : fs) (i : str) : result str :=
+    if Nat.ltb (length i) 32 then
+      match filter (str_prefix i) (listing f) with
+      | [m] => Ok m
+      | [] => Err EKeyError
+      | _ => Err ELookupError
+      end
+    else if contains_id f i then Ok i else Err EKeyError.
+
   (* project.open_job(id=i): the handle is (resolved id, _cached_statepoint) *)
   Definition open_id (f : fs) (s : sess) (i : str) : sess * result (str * option json) :=
     let s1 := ensure_read f s in
     match alookup i (s_cache s1) with
     | Some sp => (s1, Ok (i, Some sp))
     | None =>
-        match resolve f WSP i with
-        | inl m => (s1, Ok (m, None))
-        | inr e => (s1, Err (exn_of e))
+        match resolve_id f i with
+        | Ok m => (s1, Ok (m, alookup m (s_cache s1)))     (* Job.__init__(id_=m) looks m up once more *)
+        | Err e => (s1, Err e)
         end
     end.
 
@@ -192,11 +209,8 @@ Section MODEL.
   Definition jinit (force : bool) (f : fs) (s : sess) (sp : json) : fs * sess * result unit :=
     let i := cid sp in
     if negb (is_objb sp) then
-      (* self.statepoint raises in the first try block; the directory is made, then it raises again *)
-      match makedirs f (jdir i) with
-      | FOk f1 => (f1, s, Err EOther)
-      | FErr _ => (f, s, Err EOSError)
-      end
+      (* self.statepoint raises in the first try block, and again in the handler BEFORE the directory is made *)
+      (f, s, Err EOther)
     else
       match sp_load_view f i with
       | Ok _ => (f, s, Ok tt)                         (* early exit: nothing is registered *)
@@ -290,8 +304,8 @@ Section MODEL.
     end.
 
   (* Project.update_cache().  [late] selects WHERE the id set used in the comparison is taken:
-       late = false : cached_ids = set(self._sp_cache) BEFORE _update_in_memory_cache()  (the code as it is: F9)
-       late = true  : after it (the proposed fix).
+       late = false : cached_ids = set(self._sp_cache) BEFORE _update_in_memory_cache()  (the code before d7351f9: F9)
+       late = true  : after it (the code as it is).
      Result: None = "Cache is up to date", Some n = n entries written. *)
   Definition update_cache_gen (late : bool) (f : fs) (s : sess) : fs * sess * result (option N) :=
     let '(s1, cf) := read_cache f s in
@@ -317,12 +331,12 @@ Section MODEL.
         else (f, s2, Ok None)
     end.
 
-  (* THE ONE PLACE where defect F9 lives: flip to [true] when the fix: commit lands
-     (and see props/C08.v for what to do with the theorems). *)
-  Definition F9_FIXED : bool := false.
+  (* The one place where defect F9 lived.  [false] = the code before fix: d7351f9 (cached_ids taken before
+     the reconciliation), [true] = the code as it is now. *)
+  Definition F9_FIXED : bool := true.
   Definition update_cache := update_cache_gen F9_FIXED.
 
-  (* the state in which update_cache() of the present code wrongly reports "up to date":
+  (* the state in which update_cache() of the code before d7351f9 wrongly reported "up to date":
      a cache file exists, every id the session holds in memory is in it, and its id set differs
      from the directory listing *)
   Definition f9_state (f : fs) (s : sess) : bool :=
